@@ -51,8 +51,10 @@ type Scenario struct {
 	// connection.
 	Later     func(s *Session) (string, error)
 	LaterWant string
-	// PrivErrOK: a failed implicit privilege change is reported as a privilege error.
+	// PrivErrOK: a failed implicit privilege change is reported as a privilege error. UserCmd is
+	// the user's own command that follows the implicit change.
 	PrivErrOK bool
+	UserCmd   string
 	// IsOpen: the operation is Open (on failure the library closes the transport).
 	IsOpen bool
 	// Quick: part of the quick tier's operation subset.
@@ -429,7 +431,7 @@ func All() []*Scenario {
 				err := s.N.AcquirePriv("configuration")
 				return "mode=" + mode(s), err
 			}})
-		l = append(l, &Scenario{Name: "n.sendcommand-implicit", Driver: "network", PerOp: false, PrivErrOK: true, New: newNetwork("exec"), Pre: openG,
+		l = append(l, &Scenario{Name: "n.sendcommand-implicit", Driver: "network", Quick: true, PerOp: false, PrivErrOK: true, UserCmd: "show version!", New: newNetwork("exec"), Pre: openG,
 			Op: func(s *Session, o ...util.Option) (string, error) {
 				r, err := s.N.SendCommand("show version!", o...)
 				if err != nil {
@@ -445,7 +447,7 @@ func All() []*Scenario {
 				}
 				return "mode=" + mode(s) + " " + m.JoinedResult(), nil
 			}})
-		l = append(l, &Scenario{Name: "n.sendcommand-after-config", Driver: "network", PrivErrOK: true, New: newNetwork("privilege-exec"),
+		l = append(l, &Scenario{Name: "n.sendcommand-after-config", Driver: "network", PrivErrOK: true, UserCmd: "show version!", New: newNetwork("privilege-exec"),
 			Pre: func(s *Session) error {
 				if err := openG(s); err != nil {
 					return err
